@@ -1,7 +1,10 @@
 (* C09 - --limit is exact (the stdout-only part of the property is decided by
    the static print-site scan and the byte-exact CLI comparison, see DESIGN). *)
 From Coq Require Import List Arith NArith.
+From Coq Require Import ZArith.
 From Pcfg Require Import Expand ExpandProofs Session SessionProofs.
+From Pcfg Require Import KernelRt ExpandRt ExpandGenProofs.
+From PcfgGen Require Import Expand_gen.
 Import ListNotations.
 
 (* the session loop: each pre-terminal writes the first l of its guesses, the
@@ -32,5 +35,61 @@ Proof. reflexivity. Qed.
 Theorem C09_example : limited [[1;2]; []; []; [3;4;5]; [6]] (Some 4) = [1;2;3;4].
 Proof. exact C09_limit_empty_groups. Qed.
 
+(* ---- second tie to the source: gen/Expand_gen.v is the translation of the Python text
+   of omen_generate_guesses, _recursive_guesses and create_guesses
+   (harness/translate_expand.py, redone on every run); the limit bookkeeping
+   (`if limit:`, `limit = limit - n`, `limit <= 0` / `limit == 0`) is translated as
+   written and proved equal to the model's lim / exhausted / lim_sub *)
+Theorem C09_source_recursive_guesses_is_model :
+  forall (upper_c : N -> pstr) (gv : pstr -> Z -> option (list pstr)) (py_int : pstr -> Z) (mcr : Z -> list pstr)
+         (pt : list pnode) (slots : list slot),
+  resolve gv pt = Some slots ->
+  forall (fuel : nat) (cur : str) (l : lim), length pt < fuel ->
+  py_recursive_guesses upper_c gv py_int mcr false fuel cur pt (zlim l) =
+  lift (expand upper_c (omen_of py_int mcr) slots cur l).
+Proof. exact recursive_guesses_eq. Qed.
+
+(* --limit N inside a pre-terminal, for the translated create_guesses: exactly the first
+   N lines are printed and min(N, total) is returned *)
+Theorem C09_source_limit_inside_preterminal :
+  forall (upper_c : N -> pstr) (gv : pstr -> Z -> option (list pstr)) (py_int : pstr -> Z) (mcr : Z -> list pstr)
+         (honey : pstr -> list pnode -> option Z -> res (list pstr * Z))
+         (segs : list seg) (pt : list pnode) (fuel n : nat),
+  segs <> [] -> Forall seg_ok' segs -> n >= 1 ->
+  resolve gv pt = Some (flat_map slots_of segs) -> length pt < fuel ->
+  py_create_guesses upper_c gv py_int mcr false honey fuel pt false (Some (Z.of_nat n)) =
+  Ok (firstn n (denote upper_c segs), Z.of_nat (Nat.min n (length (denote upper_c segs)))).
+Proof. exact source_create_guesses_limit. Qed.
+
+(* inside a Markov level, for the translated omen_generate_guesses *)
+Theorem C09_source_limit_inside_markov_level :
+  forall (gs : list str) (n : nat), n >= 1 ->
+  py_omen_generate_guesses false gs (Some (Z.of_nat n)) = Ok (firstn n gs, Z.of_nat (Nat.min n (length gs))).
+Proof. exact source_omen_limit. Qed.
+
+(* limit 0 is no limit (Python's `if limit:`), for the translated functions *)
+Theorem C09_source_limit_zero_means_unlimited :
+  forall (upper_c : N -> pstr) (gv : pstr -> Z -> option (list pstr)) (py_int : pstr -> Z) (mcr : Z -> list pstr)
+         (honey : pstr -> list pnode -> option Z -> res (list pstr * Z))
+         (pt : list pnode) (slots : list slot) (fuel : nat),
+  resolve gv pt = Some slots -> length pt < fuel ->
+  py_create_guesses upper_c gv py_int mcr false honey fuel pt false (Some 0%Z) =
+  py_create_guesses upper_c gv py_int mcr false honey fuel pt false None.
+Proof. exact source_create_guesses_limit_zero. Qed.
+
+Theorem C09_source_example :
+  resolve gv_ex pt_ex = Some (flat_map slots_of segs_ex) /\
+  (segs_ex <> [] /\ Forall seg_ok' segs_ex /\ length pt_ex < 5) /\
+  py_create_guesses up_ascii gv_ex int_ex mcr_ex false honey_ex 5 pt_ex false (Some 5%Z) =
+    Ok (firstn 5 (denote up_ascii segs_ex), 5%Z) /\
+  py_create_guesses up_ascii gv_ex int_ex mcr_ex false honey_ex 2 [([77%N], 0%Z)] false (Some 2%Z) =
+    Ok ([[97]; [98]]%N, 2%Z).
+Proof.
+  exact (conj source_example_resolves (conj source_example_wellformed
+        (conj source_example_limit source_example_markov))).
+Qed.
+
 Print Assumptions C09_limit_exact.
 Print Assumptions C09_limit_inside_preterminal.
+Print Assumptions C09_source_recursive_guesses_is_model.
+Print Assumptions C09_source_limit_inside_preterminal.
